@@ -50,7 +50,7 @@ func runC10(res *vh.Result) {
 		"trigger of Update URR results is not asserted; REEMR may map to nothing or EMRRE",
 		"report identity = start time (10 s apart per serial) or total volume; both derive from the kernel's report serial",
 	}
-	ncases := vh.Tiered(250, 12000)
+	ncases := vh.Tiered(1200, 20000)
 	res.Cases(ncases, func(ci int, rng *vh.Rng) {
 		k := vh.NewKernel()
 		k.UpdReport = rng.Bool()
